@@ -22,7 +22,8 @@ RULE = ("history = 1-15 PooledClient calls (legal arguments; store/fetch/multi-k
         "an error, or by quit / close / disconnect_all (after which the object is used again), is closed when the call ends and never touched again; a socket that has only carried "
         "successful calls and idled <= timeout is reused by the next call (no new socket); idled > timeout: it is closed "
         "at the next checkout and a new one opened; 'Too many objects' never occurs. Deserialiser failures: reads in which one item of the reply cannot be deserialised (ten exception types, the first / a later / every key), replies apart or coalesced - the connection counts as failed. Re-entrant calls: a serializer that itself uses the same PooledClient, so that a second pooled call starts and ends while the first holds its connection (within one thread): outer set/set_many/get/get_many x inner get/set/get_many/version/quit x 0-2 warm connections x a fault on the nested exchange (swallowed by the serializer or not) x ignore_exc x max_pool_size {2,3,None}; afterwards nothing is checked out, no connection is listed twice, no open socket lives outside the pool, two healthy connections stay idle and are reused by the following calls, close() closes everything. Non-trivial: a fault that fired is "
-        "followed by a later call, or a gap above the idle timeout is followed by a call. The re-entrant part also drives both nesting levels through a RetryingClient(attempts 2-3) around the PooledClient. Pooled objects may be of a falsy Client subclass; a shallow copy of the pooled client may be made and dropped between calls without touching the pool; in the nestings both calls must return what they return alone. Long lives: 1200 (thorough 4000) calls on one pooled client, every seventh faulted, idle gaps in between.")
+        "followed by a later call, or a gap above the idle timeout is followed by a call. The re-entrant part also drives both nesting levels through a RetryingClient(attempts 2-3) around the PooledClient. Pooled objects may be of a falsy Client subclass; a shallow copy of the pooled client may be made and dropped between calls without touching the pool; in the nestings both calls must return what they return alone. Long lives: 1200 (thorough 4000) calls on one pooled client, every seventh faulted, idle gaps in between."
+        + " A TLS configuration (closing handshake fails on broken connections); calls made from inside the caller's own except block; a call that succeeded with no fault injected keeps its connection open; several idle connections of different ages (2-4, released 0-40 s apart): at every checkout those idle longer than the timeout are closed and a younger one is reused.")
 MANIFEST = {
     "category": "fault_enumeration",
     "technique": "Hypothesis-generated PooledClient histories with faults, idle gaps on a virtual clock and pool configurations + systematic single-fault / idle-gap sweep; invariants over the fake sockets' lifecycle log and the pool's accounting",
